@@ -151,9 +151,9 @@ NOT_APPLICABLE = {
     "C03": "wrapper pools (Arc<Mutex<..>>, Rc<RefCell<..>> + type-erased removers) exhaust 20-28 GB in CBMC even for {insert; drop handle} at capacity 2 (DESIGN.md P22); the Send/Sync clause is a trait-solver question, not an SMT query over the code",
     "C04": "the panic half needs unwinding (absent in Kani; catch_unwind even ICEs it) and the re-entrancy half needs the wrapper-pool shapes that do not fit (P22)",
     "C10": "OS scheduler affinity via sched_setaffinity/sched_getaffinity FFI and per-thread pin state in a thread_local with a destructor (P4): neither is encodable; the encodable mask construction is decided under C11",
-    "C12": "every entry point goes through thread_local registries with destructors and thread::current() (unsupported pthread_key_create, P4); first-access races need OS threads",
-    "C14": "OS threads, blocking event-listener waits, platform FFI, liveness; Kani ICEs on thread::spawn (P3)",
-    "C17": "real OS thread pool, mpsc/oneshot channels and panics crossing threads; no unwinding and no threads in Kani",
+    "C12": "Kani: every entry point goes through thread_local registries with destructors and thread::current() (unsupported pthread_key_create, P4). The MIR protocol engine (mirproto) that now decides C13/C15 does not reach it either within this round: the state the property is about is heap-shaped (per-thread HashMaps keyed by family, Arc strong counts compared with 2, an RwLock-guarded global registry, thread-local destructors at thread exit), not a fixed set of atomic cells, and the engine has no tables for maps, reference counts read as values, or thread teardown; first-access races and 'dropped wherever the last reference is dropped' need those",
+    "C14": "OS threads, blocking event-listener waits, platform FFI (pinning), liveness ('never hangs', 'no wake-up lost') over unbounded task queues; Kani ICEs on thread::spawn (P3); the MIR protocol engine has no model of crossbeam/Mutex-protected queues of boxed tasks, event-listener, oneshot channels or thread join, and a bounded safety encoding cannot express the termination clauses",
+    "C17": "real OS thread pool, mpsc/oneshot channels, a start barrier, a lifetime transmuted to 'static and panics crossing threads (unwinding): no unwinding and no threads in Kani; the MIR protocol engine has no tables for channels / barriers / unwinding, and the use-after-return clause is about a borrow that outlives a panicking caller, which needs unwinding semantics",
 }
 
 NOTES = ("Technique family: solver-based checking of the real code (Kani/CBMC over compiled code; MIR->SMT for the lock-free protocols and for loop-free integer kernels). "
